@@ -240,3 +240,58 @@ Proof.
              (qmax_cases 0 (charged - (now s - cost_time s) * decay c)) as [[? E2]|[? E2]];
       rewrite E1, E2; try rewrite Hq in *; try reflexivity; lra.
 Qed.
+
+(* ---------- the arithmetic regenerated from the source is the arithmetic of the model ---------- *)
+Lemma generated_known :
+  forallb aknown [gen_recv_charge; gen_send_charge; gen_error_charge; gen_bump_cost; gen_bump_drift; gen_recalc_decayed;
+                  gen_soft_range; gen_eval_cost; gen_fraction; gen_target; gen_sleep] = true.
+Proof. reflexivity. Qed.
+
+Lemma qmax0_inject z : qmax 0 (inject_Z z) == inject_Z (Z.max 0 z).
+Proof.
+  unfold qmax. destruct (Qle_bool 0 (inject_Z z)) eqn:E.
+  - apply Qle_bool_iff in E. unfold Qle in E. cbn in E. rewrite Z.max_r by lia. reflexivity.
+  - assert (H : ~ 0 <= inject_Z z) by (intros H; apply Qle_bool_iff in H; congruence).
+    unfold Qle in H. cbn in H. rewrite Z.max_l by lia. reflexivity.
+Qed.
+
+Theorem generated_arithmetic c s delta len exc extra x :
+  let env := aenv c s delta len exc extra x in
+  aeval env gen_recv_charge = len * bw c /\
+  aeval env gen_send_charge = len * bw c /\
+  aeval env gen_error_charge = error_base c + exc /\
+  aeval env gen_bump_cost = qmax 0 (cost s + delta) /\
+  aeval env gen_bump_drift = qabs (cost s - cost_last s) /\
+  aeval env gen_recalc_decayed = qmax 0 (cost s - (now s - cost_time s) * decay c) /\
+  aeval env gen_soft_range = hard c - soft c /\
+  aeval env gen_eval_cost = cost s + extra /\
+  aeval env gen_fraction = fraction_of c x /\
+  aeval env gen_target == inject_Z (Z.max 0 (Qceiling ((1 - fraction s) * inject_Z (initial c)))) /\
+  aeval env gen_sleep = fraction s * cost_sleep c.
+Proof.
+  cbv zeta. repeat split; try reflexivity. cbn. apply qmax0_inject.
+Qed.
+
+(* the model's steps, restated through the generated expressions *)
+Theorem recalc_uses_generated c extra s :
+  cost (recalc c extra s) == aeval (aenv c s 0 0 0 extra 0) gen_recalc_decayed /\
+  (Qle_bool (aeval (aenv c s 0 0 0 extra 0) gen_soft_range) 0 = false ->
+   let s1 := recalc c extra s in
+   fraction s1 == aeval (aenv c s 0 0 0 extra (cost s1 + extra)) gen_fraction /\
+   inject_Z (ctarget s1) == aeval (aenv c s1 0 0 0 extra 0) gen_target).
+Proof.
+  split.
+  - unfold recalc. destruct (Qle_bool (hard c - soft c) 0); cbn; apply Qred_correct.
+  - cbn [aeval gen_soft_range aenv]. intros E. cbv zeta. unfold recalc. rewrite E. cbn [fraction ctarget cost].
+    split; [apply Qred_correct|].
+    destruct (generated_arithmetic c
+      {| cost := Qred (qmax 0 (cost s - (now s - cost_time s) * decay c)); cost_last := Qred (qmax 0 (cost s - (now s - cost_time s) * decay c));
+         cost_time := now s; fraction := Qred (fraction_of c (Qred (qmax 0 (cost s - (now s - cost_time s) * decay c)) + extra));
+         ctarget := target_of c (Qred (qmax 0 (cost s - (now s - cost_time s) * decay c)) + extra); errors := errors s; now := now s |}
+      0 0 0 extra 0) as (_ & _ & _ & _ & _ & _ & _ & _ & _ & Ht & _).
+    cbn [fraction initial] in Ht. rewrite Ht. unfold target_of.
+    assert (Hq : Qceiling ((1 - Qred (fraction_of c (Qred (qmax 0 (cost s - (now s - cost_time s) * decay c)) + extra))) * inject_Z (initial c)) =
+                 Qceiling ((1 - fraction_of c (Qred (qmax 0 (cost s - (now s - cost_time s) * decay c)) + extra)) * inject_Z (initial c))).
+    { apply Qceiling_comp. now rewrite Qred_correct. }
+    rewrite Hq. reflexivity.
+Qed.
